@@ -2,9 +2,11 @@
 //! in-process, or the real binaries) and prints one case per line: `op \t args.. \t impl-output`.
 //! The Lean driver answers each line with a verdict (see /verif/lean/Rough/Driver).
 mod codec;
+mod keys;
 mod merkle;
 mod rig;
 mod srv;
+mod stats;
 mod util;
 
 fn main() {
@@ -45,6 +47,10 @@ fn main() {
         "codec" => codec::run(&ctx),
         "merkle" => merkle::run(&ctx),
         "srv" => srv::run(&ctx),
+        "sign" => keys::run_sign(&ctx),
+        "stats" => stats::run(&ctx),
+        "ltk" => keys::run_ltk(&ctx),
+        "srep" => keys::run_srep(&ctx),
         "replay" => replay(&ctx),
         other => {
             eprintln!("unknown stream {}", other);
@@ -80,6 +86,8 @@ fn replay(ctx: &Ctx) {
             "dec" | "disp" | "enc" => codec::replay_one(&mut out, op, args),
             "merkle" => merkle::replay_one(&mut out, args),
             "srv" => srv::replay_one(&mut out, args),
+            "stats" | "rep" => stats::replay_one(&mut out, op, args),
+            "sign" | "vrf" | "ltk" | "srep" => keys::replay_one(&mut out, op, args),
             _ => eprintln!("replay: unknown op {}", op),
         }
     }
